@@ -188,6 +188,11 @@ def handle (args : List String) : String :=
       match ofFullMatrix n key.scale W with
       | none => return "error:assert"
       | some q => return pauliStr (2 * n) q
+  | ["r2draws", a, b] => Id.run do
+      -- number of raw draws `random_two_qubit_gate(a, b)` consumes (`randomTwoDraws`: none when the early assert fires)
+      let some a := a.toInt? | return "bad-op"
+      let some b := b.toInt? | return "bad-op"
+      return toString (randomTwoDraws a b)
   | ["exportraw", gates] => Id.run do
       -- the exported circuit as raw C03 gates (`exportRawG`), and whether C03's index resolution accepts it on `numQubit` qubits
       let some gs := (gates.splitOn ",").mapM (fun s => match s.splitOn ":" with
